@@ -37,6 +37,20 @@ func referencePackets(codec esgen.Codec) []refPacket {
 		out = append(out, refPacket{name: fmt.Sprintf("fragment-%d-of-%d", i+1, len(aus[2].pkts)), ch: rtp.ChannelVideo, raw: p.Data, context: append([]pkt{}, ctx...)})
 		ctx = append(ctx, mkPkt(rtp.ChannelVideo, p.Data, "valid fragment"))
 	}
+	// the other payload structures of RFC 6184 (STAP-B, MTAP16, MTAP24, FU-B) / RFC 7798
+	// (PACI, reserved types): well-formed reference packets, cut and corrupted everywhere
+	for _, h := range otherStructures(codec) {
+		switch h.Name {
+		case "stapb-sps-pps-idr", "mtap16-sps-pps-idr", "mtap24-sps-pps-idr", "mtap16-one-unit", "mtap24-one-unit", "fub-start", "fub-whole",
+			"paci-idr", "paci-with-extension", "paci-carrying-ap", "reserved-type-51", "reserved-type-63":
+			out = append(out, refPacket{name: h.Name, ch: rtp.ChannelVideo, raw: mediaPacket(96, true, 450, ts, h.B)})
+		}
+	}
+	// FU-B / FU end fragment with the start of the unit delivered before it
+	if codec == esgen.H264 {
+		out = append(out, refPacket{name: "fub-end-after-start", ch: rtp.ChannelVideo, raw: mediaPacket(96, true, 451, ts, h264FuB(refIdr264, 9, false, true)),
+			context: []pkt{mkPkt(rtp.ChannelVideo, mediaPacket(96, false, 450, ts, h264FuB(refIdr264, 9, true, false)), "FU-B start")}})
+	}
 	aac := rtppack.Pkt{PT: 97, Marker: true, Seq: 900, TS: uint32(uint64(ts) * 44100 / 90000), SSRC: probeSSRC + 1,
 		Payload: rtppack.AacHbr([][]byte{{0x21, 0x10, 0x04, 0x60, 0x8c}, {0x21, 0x11, 0x45}})}.Marshal()
 	out = append(out, refPacket{name: "aac-two-aus", ch: rtp.ChannelAudio, raw: aac})
